@@ -32,6 +32,7 @@ type event struct {
 	seq   uint64
 	label string
 	run   func()
+	done  bool // already run: still in the global heap until it reaches the top
 }
 
 type eventHeap []*event
@@ -57,7 +58,9 @@ type Sim struct {
 	mu      sync.Mutex
 	parked  []*op
 	arrival chan struct{}
-	events  eventHeap
+	events  eventHeap             // all pending events by (time, sequence); run ones are dropped lazily
+	byLabel map[string]*eventHeap // the same events per label: the top is that label's only candidate
+	nev     int                   // pending events not yet run
 	seq     uint64
 
 	Steps    int
@@ -316,6 +319,12 @@ func (s *Sim) run(name string, f func()) {
 		}
 		s.mu.Unlock()
 		raceOn()
+		// a goroutine that ends after a timer wake-up without passing another
+		// interception point must still make the scheduler look again
+		select {
+		case s.arrival <- struct{}{}:
+		default:
+		}
 	}()
 	f()
 }
@@ -428,7 +437,18 @@ func (s *Sim) atLocked(d time.Duration, label string, fn func()) {
 		d = 0
 	}
 	s.seq++
-	heap.Push(&s.events, &event{at: time.Now().Add(d), seq: s.seq, label: label, run: fn})
+	ev := &event{at: time.Now().Add(d), seq: s.seq, label: label, run: fn}
+	heap.Push(&s.events, ev)
+	if s.byLabel == nil {
+		s.byLabel = map[string]*eventHeap{}
+	}
+	lh := s.byLabel[label]
+	if lh == nil {
+		lh = &eventHeap{}
+		s.byLabel[label] = lh
+	}
+	heap.Push(lh, ev)
+	s.nev++
 	select {
 	case s.arrival <- struct{}{}:
 	default:
@@ -565,10 +585,15 @@ func (s *Sim) loop(done func() bool) {
 		// events are FIFO per label prefix; to keep it simple only the heap head
 		// and other events with the same timestamp are candidates.
 		var due []*event
-		if len(s.events) > 0 && !s.events.peek().at.After(now) {
-			// collect events with at<=now (bounded scan)
-			for _, e := range s.events {
-				if !e.at.After(now) {
+		for len(s.events) > 0 && s.events.peek().done {
+			heap.Pop(&s.events)
+		}
+		if s.nev > 0 && !s.events.peek().at.After(now) {
+			// candidates: per label the earliest due event (per-label FIFO) - the top of
+			// that label's heap - ordered by (time, sequence). A flood of due deliveries
+			// costs O(labels) per step, not O(events).
+			for _, lh := range s.byLabel {
+				if e := lh.peek(); !e.at.After(now) {
 					due = append(due, e)
 				}
 			}
@@ -578,17 +603,6 @@ func (s *Sim) loop(done func() bool) {
 				}
 				return due[i].seq < due[j].seq
 			})
-			// keep per-label FIFO: only the first event of each label is a candidate
-			seen := map[string]bool{}
-			k := 0
-			for _, e := range due {
-				if !seen[e.label] {
-					seen[e.label] = true
-					due[k] = e
-					k++
-				}
-			}
-			due = due[:k]
 			ndue = len(due)
 		}
 		if nfail > 0 {
@@ -597,7 +611,7 @@ func (s *Sim) loop(done func() bool) {
 		}
 		if nops == 0 && ndue == 0 {
 			var wait time.Duration
-			hasEv := len(s.events) > 0
+			hasEv := s.nev > 0
 			if hasEv {
 				wait = s.events.peek().at.Sub(now)
 			}
@@ -652,12 +666,13 @@ func (s *Sim) loop(done func() bool) {
 			o.ch <- struct{}{}
 		} else {
 			e := due[k-nops]
-			for i, x := range s.events {
-				if x == e {
-					heap.Remove(&s.events, i)
-					break
-				}
+			lh := s.byLabel[e.label]
+			heap.Pop(lh) // e is the top of its label's heap
+			if lh.Len() == 0 {
+				delete(s.byLabel, e.label)
 			}
+			e.done = true
+			s.nev--
 			s.trace("ev:" + e.label)
 			s.mu.Unlock()
 			e.run()
